@@ -346,6 +346,23 @@ def check_c12(tier, seed, chk):
                             json.dumps(e.get("args")), json.dumps(e.get("generic")), o.get("ignore"),
                             str(o["sample_count"]) if o.get("sample_count") is not None else None,
                             str(o["sample_size"]) if o.get("sample_size") is not None else None))
+    # explicit option expectations of the option-form items (threads, counters, times, ...)
+    dump_by_key = {(e["module_path"], e["raw_name"]): e for e in r.dump if e.get("kind") != "meta"}
+    for b in model["benches"]:
+        exp = b.get("expect_options")
+        if not exp:
+            continue
+        e = dump_by_key.get(("::".join(["zoo"] + b["module"]), b["raw_name"]))
+        if e is None:
+            continue
+        o = e["options"] or {}
+        got = {"sample_count": o.get("sample_count"), "sample_size": o.get("sample_size"), "threads": o.get("threads"), "counters": o.get("counters"),
+               "min_time_ns": o.get("min_time_ns"), "max_time_ns": o.get("max_time_ns"), "skip_ext_time": o.get("skip_ext_time"), "ignore": o.get("ignore")}
+        full = {"sample_count": None, "sample_size": None, "threads": None, "counters": [None] * 4, "min_time_ns": None, "max_time_ns": None, "skip_ext_time": None, "ignore": None}
+        full.update(exp)
+        if got != full:
+            diff = {k: (got[k], full[k]) for k in full if got[k] != full[k]}
+            violation(res, {"check": "registered-options", "fields": sorted(diff)[:2]}, "%s::%s is registered with options that differ from its attribute: (registered, written) %s" % ("::".join(b["module"]), b["raw_name"], diff), r)
     ws, gs = sorted(want_entries, key=str), sorted(got_entries, key=str)
     if ws != gs:
         missing = [w for w in ws if w not in gs]
